@@ -40,24 +40,24 @@ Fixpoint key_eqb (a b : key) : bool :=
 
 (* ---------------------------------------------------------------- fixed-width digit strings *)
 
-(* [digits b w z]: the w digits of z in base b, most significant first (z mod b^w) *)
-Fixpoint digits (b : Z) (w : nat) (z : Z) : list Z :=
+(* [digits off b w z]: the w digits of z (0 <= z < b^w) in base b, most significant first, each shifted by [off] *)
+Fixpoint digits (off b : Z) (w : nat) (z : Z) : list N :=
   match w with
   | O => []
-  | S w' => (z / b ^ Z.of_nat w') mod b :: digits b w' z
+  | S w' => Z.to_N (off + z / b ^ Z.of_nat w') :: digits off b w' (z mod b ^ Z.of_nat w')
   end.
 
-(* base.Height.Bytes = util.Int64ToBigBytes: 8 bytes big endian *)
-Definition be8 (h : Z) : key := map Z.to_N (digits 256 8 h).
+(* base.Height.Bytes = util.Int64ToBigBytes: 8 bytes big endian (two's complement for negative heights) *)
+Definition be8 (h : Z) : key := digits 0 256 8 (h mod 2 ^ 64).
 
 Definition ascii_dash : N := 45%N.
 
-(* base.Height.FixedString = fmt.Sprintf("%021d", h) *)
+(* base.Height.FixedString = fmt.Sprintf("%021d", h): for h < 0 the sign counts in the width *)
 Definition dec_width : nat := Z.to_nat height_fixed_width.
 Definition dec21 (h : Z) : key :=
   if Z.ltb h 0
-  then ascii_dash :: map (fun d => Z.to_N (48 + d)) (digits 10 (pred dec_width) (- h))   (* "-00..0d": the sign counts in the width *)
-  else map (fun d => Z.to_N (48 + d)) (digits 10 dec_width h).
+  then ascii_dash :: digits 48 10 (pred dec_width) (- h)
+  else digits 48 10 dec_width h.
 
 Definition nines (n : nat) : key := repeat 57%N n.
 
@@ -276,52 +276,43 @@ Definition do_read (be : backend) (d : db) (r : read) : ans :=
 
 (* ---------------------------------------------------------------- the specification: reads of a chain *)
 
-Fixpoint last_some {A B} (f : A -> option B) (l : list A) : option B :=
+(* the chain is looked at from its newest block backwards *)
+Fixpoint first_some {A B} (f : A -> option B) (l : list A) : option B :=
   match l with
   | [] => None
-  | x :: r => match last_some f r with Some y => Some y | None => f x end
+  | x :: r => match f x with Some y => Some y | None => first_some f r end
   end.
 
 Definition proof_of (b : block) : option (Z * Z * val) :=
   match b_proof b with Some (sh, p) => Some (sh, b_height b, p) | None => None end.
 
-(* the block of greatest height among those satisfying p *)
-Fixpoint best_block (p : block -> bool) (l : list block) : option block :=
-  match l with
-  | [] => None
-  | b :: r =>
-      match best_block p r with
-      | None => if p b then Some b else None
-      | Some m => if p b && Z.leb (b_height m) (b_height b) then Some b else Some m
-      end
-  end.
+Definition proofs_of (l : list block) : list (Z * Z * val) :=
+  flat_map (fun b => match proof_of b with Some p => [p] | None => [] end) l.
 
-Definition has_proof (b : block) : bool := match b_proof b with Some _ => true | None => false end.
+Definition p_sh (p : Z * Z * val) : Z := fst (fst p).
+Definition p_bh (p : Z * Z * val) : Z := snd (fst p).
+
+Definition state_pairs (b : block) : list (N * (Z * val)) :=
+  rev (map (fun s : N * Z * val => let '(k, h, v) := s in (k, (h, v))) (b_states b)).
 
 Definition spec_read (chain : list block) (r : read) : ans :=
+  let newest := rev chain in
   match r with
-  | RLastMap => of_opt (option_map b_map (last_some Some chain))
-  | RLastProof => of_opt (option_map snd (last_some proof_of chain))
-  | RLastPolicy => of_opt (last_some b_policy chain)
-  | RMap h => of_opt (option_map b_map (find (fun b => Z.eqb (b_height b) h) chain))
-  | RProof sh =>
-      of_opt (option_map snd (last_some (fun b => match proof_of b with
-                                                  | Some (s, bh, p) => if Z.eqb s sh then Some (s, bh, p) else None
-                                                  | None => None
-                                                  end) chain))
-  | RProofByBlock h =>
-      match last_some Some chain with
-      | None => ANone
-      | Some lb =>
+  | RLastMap => of_opt (option_map b_map (hd_error newest))
+  | RLastProof => of_opt (option_map snd (hd_error (proofs_of newest)))
+  | RLastPolicy => of_opt (first_some b_policy newest)
+  | RMap h => of_opt (option_map b_map (find (fun b => Z.eqb h (b_height b)) newest))
+  | RProof sh => of_opt (option_map snd (find (fun p => Z.eqb sh (p_sh p)) (proofs_of newest)))
+  | RProofByBlock h =>                       (* the newest suffrage proof of a block not above h, for h up to the last block *)
+      match newest with
+      | [] => ANone
+      | lb :: _ =>
           if Z.ltb (b_height lb) h then ANone
-          else of_opt (match best_block (fun b => has_proof b && Z.leb (b_height b) h) chain with
-                       | Some b => option_map snd (proof_of b)
-                       | None => None
-                       end)
+          else of_opt (option_map snd (find (fun p => Z.leb (p_bh p) h) (proofs_of newest)))
       end
-  | RState k => of_opt (last_some (fun b => option_map snd (assocN k (rev (map (fun s => let '(k, h, v) := s in (k, (h, v))) (b_states b))))) chain)
-  | RKnown o => ABool (existsb (fun b => memN o (b_known b)) chain)
-  | RInState o => ABool (existsb (fun b => memN o (b_instate b)) chain)
+  | RState k => of_opt (first_some (fun b => option_map snd (assocN k (state_pairs b))) newest)
+  | RKnown o => ABool (memN o (flat_map b_known newest))
+  | RInState o => ABool (memN o (flat_map b_instate newest))
   end.
 
 (* ---------------------------------------------------------------- correspondence *)
@@ -334,15 +325,16 @@ Definition ans_eqb (a b : ans) : bool :=
   | _, _ => false
   end.
 
-(* a case: the chain merged so far, whether the databases were reopened after the last merge, and the answers
-   observed on the real RedisPermanent and LeveldbPermanent for a list of reads *)
-Definition check_backend (be : backend) (chain : list block) (reopened : bool) (obs : list (read * ans)) : bool :=
-  let d := run be chain in
-  let d := if reopened then reopen be d else d in
-  forallb (fun ra => ans_eqb (do_read be d (fst ra)) (snd ra)) obs.
+(* a case: the chain merged so far, whether the databases were reopened after the last merge, and for a list of
+   reads the answers observed on the real RedisPermanent and on the real LeveldbPermanent *)
+Definition state_of (be : backend) (chain : list block) (reopened : bool) : db :=
+  let d := run be chain in if reopened then reopen be d else d.
 
-Definition check (c : list block * bool * list (read * ans) * list (read * ans)) : bool :=
-  let '(chain, reopened, obs_redis, obs_leveldb) := c in
-  check_backend Redis chain reopened obs_redis
-  && check_backend Leveldb chain reopened obs_leveldb
-  && forallb (fun ra => ans_eqb (spec_read chain (fst ra)) (snd ra)) obs_leveldb.
+Definition check (c : list block * bool * list (read * ans * ans)) : bool :=
+  let '(chain, reopened, obs) := c in
+  let dr := state_of Redis chain reopened in
+  let dl := state_of Leveldb chain reopened in
+  forallb (fun o => let '(r, a_redis, a_leveldb) := o in
+                    ans_eqb (do_read Redis dr r) a_redis
+                    && ans_eqb (do_read Leveldb dl r) a_leveldb
+                    && ans_eqb (spec_read chain r) a_leveldb) obs.
